@@ -67,13 +67,22 @@ def gen(rng, kind, tier):
         spec = geom.rand_sym_spec(rng, fam, nmin=4, nmax=16)
     else:
         spec = geom.rand_cyl_spec(rng, nmin=4, nmax=12)
+    unit = float(rng.choice([1.0, 1.0, 1.0, 1.0, 1e-9, 1e-6, 1e6]))  # length unit of the grid (e.g. nanometres in metres)
+    if unit != 1.0:
+        if fam == "cart":
+            spec["bounds"] = [[b[0] * unit, b[1] * unit] for b in spec["bounds"]]
+        elif fam in ("polar", "sph"):
+            spec["radius"] = spec["radius"] * unit
+        else:
+            spec["radius"] = spec["radius"] * unit
+            spec["bounds_z"] = [spec["bounds_z"][0] * unit, spec["bounds_z"][1] * unit]
     t = str(rng.choice(["levels", "emulsion", "smooth-emulsion", "noise"]))
     thr = str(rng.choice(["number", "number", "auto", "extrema", "mean", "otsu", "otsu"]))
     case = {"grid": spec, "image": {"type": t, "seed": int(rng.integers(1 << 30))}, "rule": thr,
             "minimal_radius": str(rng.choice(["-inf", "0", "0", "0.6", "1.2"])),
             "a": float(rng.choice([0.25, 0.5, 2.0, 8.0, 1.0])), "b": float(rng.integers(-40, 41)) / 8.0,
             "extreme_map": bool(rng.random() < 0.15), "nan_cells": bool(rng.random() < 0.12),
-            "refine": bool(rng.random() < 0.06), "thr_seed": int(rng.integers(1 << 30))}
+            "refine": bool(rng.random() < 0.06), "thr_seed": int(rng.integers(1 << 30)), "unit": unit}
     return case
 
 
@@ -151,7 +160,7 @@ def run(case, rec):
         for k in r_n.choice(flat.size, size=min(flat.size, int(r_n.integers(1, 5))), replace=False):
             flat[k] = np.nan
         rec.count("images_with_nan_cells")
-    rho = float(case["minimal_radius"])
+    rho = float(case["minimal_radius"]) * float(case.get("unit", 1.0))  # a length: expressed in the grid's unit
     r = np.random.default_rng(case["thr_seed"])
     levels = np.unique(data[np.isfinite(data)]) if np.any(np.isfinite(data)) else np.array([0.0])
     if rule == "number":
@@ -167,9 +176,12 @@ def run(case, rec):
 
     def analyse(arr, thr, refine=False):
         log: list = []
+        the_field = ScalarField(grid, arr)
         with monitors.wrap_attr(ia, "threshold_otsu", monitors.recording(log, "threshold_otsu")):
-            c = common.monitored(rec, "locate_droplets", droplets.locate_droplets, ScalarField(grid, arr), threshold=thr,
+            c = common.monitored(rec, "locate_droplets", droplets.locate_droplets, the_field, threshold=thr,
                                  minimal_radius=rho, refine=refine)
+        rec.check(np.array_equal(np.asarray(the_field.data), np.asarray(arr), equal_nan=True), "input-unchanged",
+                  f"locate_droplets modified the field it was given; {label}")
         return c, log
 
     c, log = analyse(data, thr_arg)
